@@ -36,8 +36,10 @@ MANIFEST = dict(
     design_ref="DESIGN.md 4.C04",
 )
 COQ_FILES = ["Base/Wrap32.v", "Base/D8.v", "gen/Gen_exact_scalar.v", "Model/ExactScalar.v", "Proofs/ExactScalarProofs.v",
-             "Proofs/CliffordProd.v", "Proofs/BalanceProofs.v", "Props/C04.v"]
-TRANSLATORS = ["exact_scalar"]
+             "Proofs/CliffordProd.v", "Proofs/BalanceProofs.v", "Base/ListPerm.v", "gen/Gen_sampler_dispatch.v", "Model/Sampler.v",
+             "Proofs/SamplerProofs.v", "Props/C06.v", "gen/Gen_decompose.v", "Model/Decompose.v", "Model/Components.v",
+             "Proofs/DecomposeProofs.v", "Proofs/ComponentsProofs.v", "Props/C11.v", "Props/C04.v"]
+TRANSLATORS = ["exact_scalar", "sampler_dispatch", "decompose"]
 
 
 # ----------------------------------------------------------------------------------------------
